@@ -72,6 +72,10 @@ def same_shape_summary(name, argpos=0):
         if log is None:
             log = it.ctx.opaque_log = []
         log.append((name, x.shape))
+        calls = getattr(it.ctx, "opaque_calls", None)
+        if calls is None:
+            calls = it.ctx.opaque_calls = []
+        calls.append({"name": name, "args": list(a), "kwargs": dict(k), "out": out, "out_at_return": out.snapshot()})     # (the caller may write into the result later)
         return out
     return summary
 
@@ -104,7 +108,8 @@ def setup(it, variant):
     it.ctx.assume(rate > 0)
     meta = {"typeThis": "imec", "snsApLfSy": [SV(z3.ToReal(ncv)), 0.0, SV(z3.ToReal(nc - ncv))], "nSavedChans": SV(z3.ToReal(nc)), "imSampRate": SV(rate),
             "fileTimeSecs": SV(z3.ToReal(ns) / rate), "imMaxInt": 512.0, "imDatPrb_type": 0.0}
-    sr = SObj(spikeglx.Reader, _raw=raw, raw_channel_order=A.arange(0, SV(nc)), channel_conversion_sample2v={"ap": s2v}, meta=meta, dtype=np.dtype("int16"))
+    sr = SObj(spikeglx.Reader, _raw=raw, raw_channel_order=A.arange(0, SV(nc)), channel_conversion_sample2v={"ap": s2v}, meta=meta, dtype=np.dtype("int16"),
+              geometry={"sample_shift": A.fresh_array("file_sample_shift", "float64", (ncv,)), "x": A.fresh_array("file_x", "float64", (ncv,)), "y": A.fresh_array("file_y", "float64", (ncv,))})
     out_dt = np.dtype(variant.get("out_dtype", "int16"))
     out_path = fsmodel.GhostPath(fs_, ("out",), "destriped.bin")
     rms_path = fsmodel.GhostPath(fs_, ("out",), "ap_rms.bin")
@@ -226,6 +231,26 @@ def run_batch(H, variant, tag):
         e_b = z3.If(last == ns, ns, first + NB - TAPER)
         max_s = z3.If(y["ichunk"] == y["nchunk"] - 1, ns, (y["ichunk"] + 1) * y["CHUNK"])
         it.ctx.oblige(f"exit.iff.{tag}", z3.BoolVal(exited) == (last >= max_s), "post", "the worker stops after the first batch that reaches its boundary")
+        # ---- what the opaque steps are handed (equals batch-wise in-memory destriping: the same header, labels and rows as destripe() uses)
+        oc = getattr(it.ctx, "opaque_calls", [])
+        hh = fenv.lookup("h")
+        sh_calls = [c_ for c_ in oc if c_["name"] == "fshift"]
+        it.ctx.oblige(f"dataflow.shift_by_the_header_of_the_run.{tag}", z3.BoolVal(all((c_["kwargs"].get("s") if "s" in c_["kwargs"] else (c_["args"][1] if len(c_["args"]) > 1 else None)) is hh["sample_shift"] for c_ in sh_calls)), "post",
+                      "a batch re-aligned with the plain Fourier shift (the last one) uses the sampling delays of the header resolved for the run - the ones the stencil of every other batch is built from")
+        if variant.get("reject"):
+            ic = [c_ for c_ in oc if c_["name"] == "interp"]
+            sc_ = [c_ for c_ in oc if c_["name"] == "spatial"]
+            ok_i = len(ic) == 1 and len(ic[0]["args"]) >= 4 and ic[0]["args"][1] is fenv.lookup("channel_labels") and ic[0]["args"][2] is hh["x"] and ic[0]["args"][3] is hh["y"]
+            it.ctx.oblige(f"dataflow.repair_sees_every_channel.{tag}", z3.And(z3.BoolVal(ok_i), A.T(ic[0]["args"][0].shape[0]) == ncv) if ok_i else z3.BoolVal(False), "post",
+                          "dead / noisy channels are rebuilt from the whole batch with the labels and coordinates of the run (outside-brain neighbours are legitimate sources), before the channels outside the brain are set aside")
+            w = [x_ for x_ in it.ctx.where_log if x_["ndim"] == 1]
+            ok_s = len(sc_) == 1 and ok_i and len(w) >= 1
+            if ok_s:
+                xin, rep = sc_[0]["args"][0], ic[0]["out_at_return"]
+                r_, t_ = z3.Ints("r_ t_")
+                m_, rows_ = w[-1]["count"], w[-1]["rows"]
+                it.ctx.oblige(f"dataflow.spatial_filter_sees_the_repaired_rows.{tag}", z3.And(A.T(xin.shape[0]) == m_, A.forall([r_, t_], lambda: z3.Implies(z3.And(r_ >= 0, r_ < m_, t_ >= 0, t_ < A.T(xin.shape[1])),
+                              xin.read((r_, t_)) == rep((rows_(r_), t_))))), "post", "the spatial filter receives the rows inside the brain of the repaired batch", assume=False)
         new = fid.writes[nw0:]
         npos = fid.positions[nw0:]
         ok = len(new) >= 1
